@@ -312,6 +312,8 @@ class Ev:
                     return ops[names.index(name)]
                 if e["f"] < len(ops) and not names:
                     return ops[e["f"]]
+            if t[0] == "closure" and e["f"] < len(t[2]):
+                return t[2][e["f"]]
             if t[0] == "variant":
                 base, vname = t[1], t[2]
                 if base[0] == "phi":
@@ -544,6 +546,11 @@ class Ev:
         if is_transparent(path, f.get("trait"), f.get("trait_method")) and args:
             # derived Clone on local types etc. are still "the same value"
             return args[0]
+        # x.map(|v| f(v)) on Option/Result: the payload is the closure body applied to the payload of x (wrapper and payload are one term here)
+        if len(args) == 2 and strip_generics(path) in ("core::option::Option::map", "core::result::Result::map") and isinstance(args[1], tuple) and args[1] and args[1][0] == "closure":
+            r = self.apply_closure(args[1], [args[0]])
+            if r is not None:
+                return r
         if f.get("trait") == "core::cmp::PartialEq" and len(args) == 2:
             r = fold_bin("Eq" if f.get("trait_method") == "eq" else "Ne", args[0], args[1])
             if r is not None:
@@ -559,6 +566,19 @@ class Ev:
         if f.get("trait") in ("core::ops::index::Index", "core::ops::index::IndexMut") and len(args) == 2:
             return ("index", args[0], args[1])
         return ("call", path, args, (self.fn.path, b))
+
+    def apply_closure(self, clo, cargs):
+        """Return term of a crate-local closure applied to argument terms (closure environment bound to the captured values)."""
+        path = clo[1]
+        callee = self.prog.fns.get(path)
+        if callee is None or path in self.stack or self.depth >= self.max_depth:
+            return None
+        binds = {1: clo}
+        for i, a in enumerate(cargs):
+            binds[2 + i] = a
+        ev = Ev(self.prog, callee, binds=binds, assume=self.assume, depth=self.depth + 1, max_depth=self.max_depth, stack=self.stack + (path,))
+        r = ev.ret()
+        return None if r == ("never",) else r
 
     def stable_place(self, t):
         """True when the place described by t cannot be mutated while this function runs (rooted at a shared reference
